@@ -36,7 +36,8 @@ KidsAt(st, i) ==
   IF i = 0 THEN (IF DocMode THEN {"html"} ELSE Flow)
   ELSE LET t == st[i] IN
     CASE t \in Transparent -> KidsAt(st, i - 1) \ (IF t = "a" THEN Interactive ELSE IF t = "noscript" THEN {"noscript"} ELSE {})
-      [] t \in {"div", "li", "td", "dd", "section", "blockquote", "body", "template"} -> Flow
+      [] t = "template" -> KidsAt(st, i - 1)        \* template contents: what the context allows (4.12.3)
+      [] t \in {"div", "li", "td", "dd", "section", "blockquote", "body"} -> Flow
       [] t = "dt" -> Flow \ {"section", "h1"}
       [] t \in {"p", "h1", "span", "b", "i", "em", "pre", "rt"} -> Phrasing
       [] t = "label" -> Phrasing \ {"label"}
@@ -59,8 +60,8 @@ RECURSIVE TextAt(_, _)
 TextAt(st, i) ==
   IF i = 0 THEN TRUE
   ELSE LET t == st[i] IN
-    IF t \in Transparent THEN TextAt(st, i - 1)
-    ELSE t \in {"div", "li", "td", "dd", "dt", "section", "blockquote", "body", "template", "p", "h1", "span", "b", "i",
+    IF t \in Transparent \/ t = "template" THEN TextAt(st, i - 1)
+    ELSE t \in {"div", "li", "td", "dd", "dt", "section", "blockquote", "body", "p", "h1", "span", "b", "i",
                 "em", "pre", "rt", "rp", "label", "button", "ruby", "option"} \cup RawKinds
 TextOK(st) == TextAt(st, Len(st))
 Top(st) == IF st = <<>> THEN "#frag" ELSE st[Len(st)]
